@@ -119,6 +119,12 @@ class Ctx:
         hit = self.memo.get(key)
         if hit is not None and hit[0].eq(t):
             return hit[1]
+        if mentions_nan(t):
+            # a NaN word reached a decision through an operation the facade does not model (only min / max / nanmin / nanmax /
+            # isclose know NaN): the path says nothing
+            self.flag('control flow depends on a NaN through an unmodelled operation')
+            self.memo[key] = (t, True)
+            return True
         if mentions_uninit(t):
             # control flow that depends on uninitialised memory: never fork on it, remember it
             self.uninit_ctrl.append(t)
@@ -343,6 +349,41 @@ def mentions_uninit(t):
     if len(_uninit_cache) > 200000:
         _uninit_cache.clear()
     _uninit_cache[t.get_id()] = (t, False)
+    return False
+
+
+_NAN_PREFIX = 'NAN!'
+_nan_counter = itertools.count()
+_nan_made = [0]
+
+
+def nanword():
+    """A payload word that is NaN.  It lives in the real sort only to travel through arrays and files; the facade's
+    min / max (NaN wins), nanmin / nanmax (NaN skipped) and isclose (never close, unless equal_nan and both) give it
+    IEEE meaning, and any decision that still depends on it flags the path (Context.decide)."""
+    _nan_made[0] += 1
+    return SymReal(z3.Real('%s%d' % (_NAN_PREFIX, next(_nan_counter))))
+
+
+def is_nanword(x):
+    t = x.t if isinstance(x, SymReal) else None
+    return t is not None and z3.is_const(t) and t.decl().kind() == z3.Z3_OP_UNINTERPRETED and t.decl().name().startswith(_NAN_PREFIX)
+
+
+def mentions_nan(t):
+    if not _nan_made[0]:
+        return False
+    seen = set()
+    todo = [t]
+    while todo:
+        e = todo.pop()
+        i = e.get_id()
+        if i in seen:
+            continue
+        seen.add(i)
+        if z3.is_const(e) and e.decl().kind() == z3.Z3_OP_UNINTERPRETED and e.decl().name().startswith(_NAN_PREFIX):
+            return True
+        todo.extend(e.children())
     return False
 
 
